@@ -685,7 +685,9 @@ func main() {
 	runSched(f, res, drv, r.Fork())
 	runStop(f, res, r.Fork())
 	runStopImmediately(f, res, drv)
+	runPairs(f, res) // first: its bare-haxmap control gates the free-run known ids
 	runFree(f, res, r.Fork())
-	runPairs(f, res)
+	res.Exhaustive = false
+	res.Note("exhaustive=false: the fixed families (boundary, forced races, split Get/Set, Reset during a sweep, concurrent Stop, stop-immediately scripts) are complete lists by construction, but histories, schedules and free-running interleavings are sampled, not enumerated")
 	res.Write(f.Out)
 }
